@@ -246,6 +246,16 @@ def rule_R4(ctx, f):
             msi = b.switch_info(mnx[0].target)
             mbody = [t for v, t in msi[1] if v == 1][0]
             ok = b.all_paths_pass(mbody, [pushes[0].bb], dst_set={mnx[0].bb})
+    if ok:
+        # ... and the sample loop itself is reached for every family that takes the Occupied arm (no `continue` for a family the registry does not like)
+        oc = [bi for bi in b.reach(body_entry, avoid_blocks=[inner.bb]) if (lambda si_: si_ and is_call(peel(si_[0][1]) if si_[0][0] == "discr" else si_[0], ["BTreeMap::entry"]))(b.switch_info(bi))]
+        tm = b.calls_to(["take_metric"])
+        ok = len(oc) == 1 and len(tm) == 1
+        if ok:
+            si_ = b.switch_info(oc[0])
+            arms_ = [t for v, t in si_[1]] + [si_[2]]
+            occ = [t for t in arms_ if tm[0].bb in b.reach(t, avoid_blocks=[inner.bb]) or t == tm[0].bb]
+            ok = len(occ) == 1 and b.all_paths_pass(occ[0], [mnx[0].bb], dst_set={inner.bb})
     ctx.ob(rid, "gather|occupied-moves-all-samples", ok, "for an existing name every sample of take_metric() must be pushed, unconditionally (no filter, no de-duplication, no clone)", site=pushes[0].span if pushes else None)
     loop_blocks = b.reach(body_entry, avoid_blocks=[outer.bb])
     clones = [c for c in b.calls_to("Clone::clone") if c.bb in loop_blocks and ("Metric" in c.callee_args)]
@@ -336,6 +346,33 @@ def rule_R5(ctx, f):
     ctx.floor(rid, "closures building common label pairs", npair, 1)
 
 
+def rule_R7(ctx, f):
+    rid = "R7"
+    ctx.rule(rid, "declared metadata is carried: every collect() of the library's metric types sets the family's name and help from clones of its descriptor's fq_name and help, "
+                  "unconditionally, and Desc::new stores the caller's name and help unchanged (shared with C09.R2 `stores-validated`)")
+    n = 0
+    for k in f.order:
+        b = f.bodies[k]
+        if "::push::" in b.path or "process_collector" in b.path or "registry" in b.path:
+            continue
+        sn = [c for c in b.calls_to(["MetricFamily::set_name"])]
+        sh = [c for c in b.calls_to(["MetricFamily::set_help"])]
+        if not sn and not sh:
+            continue
+        ctx.saw(b)
+        n += 1
+        key = strip_generics(b.path).replace("prometheus::", "")
+        for cs, fld, what in ((sn, "fq_name", "name"), (sh, "help", "help")):
+            ok = len(cs) == 1 and count_range(b, [cs[0].bb]) == (1, 1)
+            if ok:
+                v = cs[0].args[1]
+                ok = is_call(v, "Clone::clone") and (lambda t: isinstance(t, tuple) and t[0] == "field" and t[2] == fld and isinstance(t[1], tuple) and t[1][0] in ("field", "deref") and
+                                                     (t[1][-1] == "desc" or (t[1][0] == "deref" and isinstance(t[1][1], tuple) and t[1][1][-1] == "desc")))(peel(v))
+            ctx.ob(rid, "%s|%s" % (key, what), ok, "%s must set the family's %s to a clone of its descriptor's %s, once, on every path (found %s)" % (key, what, fld, [show(c.args[1])[:80] for c in cs]),
+                   site=cs[0].span if cs else b.raw["span"]["at"])
+    ctx.floor(rid, "collect bodies that build a family", n, 4)
+
+
 def run(ctx):
     f = ctx.facts("default")
     ctx.run_rule("R1", rule_R1, f)
@@ -348,6 +385,9 @@ def run(ctx):
     from . import C05, C06
     ctx.rule("R6", "every sample carries all its declared labels sorted by name (shared with C05.R5): make_label_pairs pairs variable_labels[i] with label_values[i] for all i, appends all const pairs, sorts")
     ctx.run_rule("R6", lambda c: C06._as(c, "R6", lambda s: C05.rule_R5(s, f)))
+    ctx.run_rule("R7", rule_R7, f)
+    from . import C09
+    ctx.run_rule("R7", lambda c: C06._as(c, "R7", lambda s: C09.rule_R2(s, f), keep=lambda k: "stores-validated" in k))
     if ctx.tier == "thorough":
         for cfgname in ("plain", "nightlyproc"):
             g = ctx.facts(cfgname)
